@@ -131,8 +131,11 @@ fn main() {
                 }
             }
             let mut k = 0u64;
+            // every definition is taken once up front; the comparisons below evaluate `type_info()` again, much later and after
+            // many other identities were resolved (a definition is a function of the identity, whenever it is asked for)
+            let first: Vec<scale_info::Type> = table.iter().map(|e| e.0.type_info()).collect();
             for i in 0..table.len() {
-                let info_i = table[i].0.type_info();
+                let info_i = &first[i];
                 for j in i..table.len() {
                     let (a, b) = (&table[i].0, &table[j].0);
                     let eq = a == b;
@@ -141,7 +144,7 @@ fn main() {
                     let hash_eq = hash_of(a) == hash_of(b);
                     let tid_eq = a.type_id() == b.type_id();
                     // definitions are compared only when needed (equal identity), to keep the run short
-                    let info_eq = if eq || (i + j) % 7 == 0 { (info_i == table[j].0.type_info()) as u8 } else { 2 };
+                    let info_eq = if eq || (i + j) % 7 == 0 { (*info_i == table[j].0.type_info()) as u8 } else { 2 };
                     writeln!(
                         w,
                         "meta {} {} {} {} {} {} {} {} {}",
